@@ -170,7 +170,7 @@ pub fn c17(a: &Args, rep: &mut Report) {
     rep.rule = "cases = seeded inputs (uniform, lattices with many equidistant candidates, clusters, coplanar; all dimensionalities, box shapes and offsets, periodic or not); for up to 7 query generators the COMPLETE visit sequence of the production iterator is checked, plus the prefix consumed by every real cell build; distinct = distinct input hash; non-trivial = at least one candidate besides the generator itself".into();
     rep.assumptions = vec!["ordering tolerance on squared distances: 64 u (M + d) d (DESIGN 6/C17)".into()];
     let szs: Vec<usize> = if a.tier == "thorough" { vec![1, 2, 3, 5, 8, 27, 100, 400, 1000, 3000] } else { vec![1, 2, 3, 5, 8, 27, 100, 300] };
-    let n = ncases(a, 1500, 12000);
+    let n = ncases(a, 6000, 30000);
     run_parallel(rep, n, budget(a, 100., 900.), |k, rep| {
         let o = GenOpts {
             sizes: &szs,
@@ -353,7 +353,7 @@ pub fn c16(a: &Args, rep: &mut Report) {
     rep.rule = "cases = seeded inputs of the conditioned families (all dimensionalities, periodic or not, one quarter partial); every constructed cell: bound vs own and reference vertices, neighbour distances, in-situ termination check on the candidate trace; 4 cells per input x {1,5,50} far generators added (metamorphic); distinct = distinct input hash; non-trivial = every case (each has at least one constructed cell or is counted)".into();
     rep.assumptions = vec!["reference clipper for the farthest point of the true cell".into(), "termination tolerance 64 u (M + d)".into()];
     let szs: Vec<usize> = if a.tier == "thorough" { vec![1, 2, 3, 4, 5, 8, 13, 27, 50, 100, 200, 400] } else { vec![1, 2, 3, 4, 5, 8, 13, 27, 50, 100] };
-    let n = ncases(a, 2500, 40000);
+    let n = ncases(a, 10000, 80000);
     run_parallel(rep, n, budget(a, 100., 900.), |k, rep| {
         let o = GenOpts {
             sizes: &szs,
